@@ -164,6 +164,7 @@ def run(tier, out):
                    "distinct = exported transitions + prefix events" % (cov["design_cfg"], cov["random_runs"], cov["random_len"]))
     cov["self_test"] = "; ".join(st)
     cov["checker_cmd"] = "tlc MC_Prefix / MC_Table / Trace_Prefix / Trace_Table"
+    cloudcommon.data_design(PID, tier, out, cov)
     cloudcommon.part(PID, tier, out, cov)
     return out.finish("model_checking", cov, assumptions=[
         "ticks are housekeeping rounds: every clock change is followed by ClaimTable::housekeep before the next call (DESIGN.md 5.3)",
